@@ -351,7 +351,9 @@ def rule_R5(ctx, f):
             if si and si[0] == ("discr", P(2)) and hits:
                 some_t = [t for v, t in si[1] if v == 1][0]
                 nx = [n for n in b.calls_to("Iterator::next") if hits[0][0].bb in b.reach(n.bb)]
-                ctx.ob(rid, "new_custom|labels-loop-before-ok", bool(nx) and all(x not in b.reach(some_t, avoid_blocks=[nx[0].bb]) for x in okb),
+                if hits[0][1] is None:
+                    nx = [hits[0][0]]          # a search by closure (find/any/all): the search call itself is the loop
+                ctx.ob(rid, "new_custom|labels-loop-before-ok", bool(nx) and all(x not in b.reach_ps(some_t, avoid_blocks=[nx[0].bb]) for x in okb),
                        "with common labels the validation loop must run before the registry is returned", site=hits[0][0].span)
         # stores the validated values
         st = [(b.term_place(pl), b.term_rvalue(rv)) for bi, si_, pl, rv in b.stores()]
